@@ -352,8 +352,13 @@ func (w *objectWalk) processCommitTrees(lc *object.Commit) error {
 		return fmt.Errorf("getting tree for %s: %w", lc.Hash, err)
 	}
 
+	// The parents of a shallow commit are not part of the history being
+	// sent: the receiver does not get them, so nothing in this commit's tree
+	// may be left out on the grounds that a parent has it as well.
+	_, shallow := w.shallows[lc.Hash]
+
 	var oldTrees []*object.Tree
-	for i := 0; i < lc.NumParents(); i++ {
+	for i := 0; i < lc.NumParents() && !shallow; i++ {
 		parent, err := lc.Parent(i)
 		if err != nil {
 			if errors.Is(err, plumbing.ErrObjectNotFound) {
